@@ -64,7 +64,7 @@ def queue_poll_events(seed, params):
     """Producers publish (generator API) then send 'poll' events; consumers ack after working."""
     p = P(params, seed)
     mq = _mq(p)
-    cons = [Consumer(f"c{i}", mq, p.lat(2), "ack") for i in range(p.cap(2))]
+    cons = [Consumer(f"c{i}", mq, p.lat(2), "ack") for i in range(p.count(1, 2))]
     for c in cons:
         mq.subscribe(c)
     arr = p.arrivals(6)
@@ -146,7 +146,7 @@ def topic_fanout_events(seed, params):
     """'publish' events to a Topic with a positive per-subscriber delivery latency."""
     p = P(params, seed)
     topic = Topic("topic", delivery_latency=p.lat(0), max_subscribers=None)
-    subs = [Recorder(f"s{i}") for i in range(1 + p.cap(2))]
+    subs = [Recorder(f"s{i}") for i in range(p.count(0, 3))]
     for s in subs:
         topic.subscribe(s)
     arr = p.arrivals(5)
@@ -163,7 +163,7 @@ def topic_generator_and_replay(seed, params):
     p = P(params, seed)
     topic = Topic("topic", delivery_latency=p.lat(1))
     topic.set_retain_messages(True, max_history=4)
-    subs = [Recorder(f"s{i}") for i in range(max(2, p.cap(2)))]
+    subs = [Recorder(f"s{i}") for i in range(p.count(0, 2, lo=2))]
     late = Recorder("late")
     for s in subs:
         topic.subscribe(s)
@@ -193,3 +193,85 @@ def topic_generator_and_replay(seed, params):
         sim.schedule(ev(t, "start", procs[i], worker=i))
     sim.schedule(ev(min(arr), "start", lc, worker=-1))
     return Scenario(sim, {"topic": topic, "late": late}, "messaging", True, len(arr) + 1)
+
+
+AWKWARD_LATENCIES = (0.0003, 0.3, 0.03, 0.015, 0.29, 2.01, 0.1, 0.001)
+GRID_COUNTS = (1, 2, 3, 5, 6, 9, 10, 11, 12)
+
+
+@scenario("messaging.topic_fanout_latency_count_grid", "messaging")
+def topic_fanout_latency_count_grid(seed, params):
+    """One Topic per (delivery latency, subscriber count) pair of a grid of awkward decimals x counts.
+
+    A fan-out over n subscribers takes n waits of `latency`; anything that derives the finish time as
+    `latency * n` instead is off by a nanosecond only for particular pairs (0.0003 s x 5, 0.3 s x 3 ...),
+    so the whole grid is driven in every run (each topic gets one publish per arrival burst)."""
+    p = P(params, seed)
+    lats = list(AWKWARD_LATENCIES) + [p.lat(0), p.lat(1)]
+    arr = p.arrivals(2)
+    t0, t1 = min(arr), max(arr)
+    topics, sinks, n_pub = [], [], 0
+    for li, lat in enumerate(lats):
+        for n in GRID_COUNTS:
+            t = Topic(f"t{li}x{n}", delivery_latency=lat)
+            subs = [Recorder(f"r{li}x{n}.{k}") for k in range(n)]
+            for sub in subs:
+                t.subscribe(sub)
+            topics.append(t)
+            sinks.extend(subs)
+    sim = make_sim([*topics, *sinks], max(p.end(), 40.0))
+    for t in topics:
+        for when in sorted({t0, t1}):
+            sim.schedule(ev(when, "publish", t, context={"payload": ev(when, "News", sinks[0])}))
+            n_pub += 1
+    return Scenario(sim, {"first": topics[0], "last": topics[-1]}, "messaging", True, n_pub)
+
+
+@scenario("messaging.degenerate_empty_and_zero", "messaging")
+def degenerate_empty_and_zero(seed, params):
+    """Empty / zero cases: publish to a topic without subscribers, poll of an empty queue and of a queue
+    without consumers, zero delivery latency, DLQ reprocess / clear / cleanup while empty, capacity 1,
+    max_redeliveries 0, unsubscribe of everybody, publish_sync with nobody listening."""
+    p = P(params, seed)
+    lonely = Topic("lonely", delivery_latency=p.lat(0))
+    instant = Topic("instant", delivery_latency=0.0)
+    sub = Recorder("sub")
+    instant.subscribe(sub)
+    dlq = DeadLetterQueue("dlq", capacity=1, retention_period=p.lat(1))
+    mq = MessageQueue("mq", delivery_latency=0.0, redelivery_delay=p.lat(1), max_redeliveries=0, capacity=1, dead_letter_queue=dlq)
+    noconsumer = MessageQueue("noconsumer", delivery_latency=p.lat(2), redelivery_delay=p.lat(1))
+    con = Consumer("con", mq, p.lat(2), "reject")
+    mq.subscribe(con)
+    arr = p.arrivals(4)
+
+    def driver(proc, event):
+        i = event.context["metadata"]["worker"]
+        out = []
+        out += (yield from lonely.publish(Event(time=proc.now, event_type="N", target=sub))) or []
+        out += lonely.publish_sync(Event(time=proc.now, event_type="N", target=sub))
+        out += (yield from instant.publish(Event(time=proc.now, event_type="N", target=sub))) or []
+        got = yield from mq.poll()  # empty queue
+        if got is not None:
+            out.append(got)
+        got = yield from noconsumer.poll()  # no consumers
+        yield from noconsumer.publish(Event(time=proc.now, event_type="M", target=sub))
+        got = yield from noconsumer.poll()  # pending message, still nobody to deliver to
+        if not mq.is_full:
+            yield from mq.publish(Event(time=proc.now, event_type="M", target=con, context={"metadata": {"n": i}}))
+        out.append(Event(time=proc.now, event_type="poll", target=mq))
+        out += dlq.reprocess_all(mq)
+        out.append(Event(time=proc.now, event_type="cleanup", target=dlq))
+        out.append(Event(time=proc.now, event_type="clear", target=dlq))
+        if i == len(arr) - 1:
+            instant.unsubscribe(sub)
+            out += (yield from instant.publish(Event(time=proc.now, event_type="N", target=sub))) or []
+        proc.done += 1
+        return out
+
+    procs = [Proc(f"d{i}", driver) for i in range(len(arr))]
+    sim = make_sim([lonely, instant, sub, dlq, mq, noconsumer, con, *procs], p.end())
+    for i, t in enumerate(arr):
+        sim.schedule(ev(t, "start", procs[i], worker=i))
+        sim.schedule(ev(t, "publish", lonely, context={"payload": ev(t, "News", sub)}))
+        sim.schedule(ev(t, "publish", lonely, context={}))  # no payload at all
+    return Scenario(sim, {"mq": mq, "dlq": dlq, "lonely": lonely, "instant": instant}, "messaging", True, 3 * len(arr))
